@@ -166,6 +166,10 @@ impl Schedule {
         transitions: HashMap<VehicleTypeIdx, Transition>,
     ) -> Self {
         let mut new_schedule = self.clone();
+        new_schedule.maintenance_violation = transitions
+            .values()
+            .map(|transition| transition.maintenance_violation())
+            .sum();
         new_schedule.next_period_transitions = transitions;
         new_schedule
     }
